@@ -45,6 +45,8 @@ mod biarc {
         /// Try to create a second handle, if it doesn't already exist.
         pub fn try_clone(&self) -> Option<Self> {
             // Try to transition to SHARED.
+            #[cfg(aranya_core_verif)]
+            crate::verif_hook::yield_point(crate::verif_hook::SITE_BIARC_CLONE_SWAP);
             match self.inner().state.swap(STATE_SHARED, Ordering::AcqRel) {
                 // We were not already shared so we can create another handle.
                 STATE_UNSHARED => Some(Self(self.0)),
@@ -55,11 +57,15 @@ mod biarc {
 
         /// Get the inner data unconditionally.
         pub fn get_unconditional(&self) -> &T {
+            #[cfg(aranya_core_verif)]
+            crate::verif_hook::yield_point(crate::verif_hook::SITE_BIARC_GET_UNCOND);
             &self.inner().value
         }
 
         /// Get the inner data only if there is currently a second handle.
         pub fn get_if_shared(&self) -> Option<&T> {
+            #[cfg(aranya_core_verif)]
+            crate::verif_hook::yield_point(crate::verif_hook::SITE_BIARC_GET_LOAD);
             match self.inner().state.load(Ordering::Acquire) {
                 STATE_UNSHARED => None,
                 STATE_SHARED => Some(&self.inner().value),
@@ -71,7 +77,11 @@ mod biarc {
         fn drop(&mut self) {
             // We transition to UNSHARED since there will no longer be multiple BiArcs active.
             // If we were already UNSHARED then we are the sole holder of the data.
+            #[cfg(aranya_core_verif)]
+            crate::verif_hook::yield_point(crate::verif_hook::SITE_BIARC_DROP_SWAP);
             if self.inner().state.swap(STATE_UNSHARED, Ordering::AcqRel) == STATE_UNSHARED {
+                #[cfg(aranya_core_verif)]
+                crate::verif_hook::yield_point(crate::verif_hook::SITE_BIARC_DROP_FREE);
                 // SAFETY: The data is not shared, so we can immediately drop it.
                 unsafe {
                     drop(Box::from_raw(self.0.as_ptr()));
